@@ -19,4 +19,5 @@ pub mod eng_keys;
 pub mod eng_capi;
 pub mod eng_mem;
 pub mod eng_compfs;
+pub mod eng_rloop;
 pub mod alloc;
